@@ -16,7 +16,10 @@ otherwise returned as an obligation with its path condition.
 Addresses: a data allocation may carry a SYMBOLIC 64-bit base address (Buf.base, constrained only by what the
 creator states - no alignment assumption unless given).  `ptrtoint` yields base + offset, so alignment tests such
 as `(uintptr_t)p & 7` are terms over the base and the branches on them FORK paths (feasibility by the solver);
-`inttoptr` is accepted for <base of an allocation> + <address-independent term>.  Pointers into the same
+`inttoptr` is accepted for <base of an allocation> + <address-independent term>.  A GEP index / pointer
+increment into a concretely sized buffer that is a symbolic term is ENUMERATED: the solver lists its feasible values
+under the path condition (blocking clauses, cap 16, more -> Unsupported) and one path per value continues with the
+value pinned (substituted in all registers and slots).  Pointers into the same
 allocation may be compared; across allocations -> Unsupported.
 
 Opcodes handled: alloca load store getelementptr(single index) bitcast ptrtoint inttoptr icmp br xor or and shl lshr
@@ -340,6 +343,49 @@ class Interp:
             raise Unsupported("solver returned unknown on a path condition")
         return r == z3.sat
 
+    VALUE_CAP = 16
+
+    def enumerate_values(self, pc, term):
+        """all values of `term` that are feasible under pc (blocking clauses); more than VALUE_CAP -> Unsupported"""
+        import time
+        s = z3.Solver()
+        s.set("timeout", self.timeout)
+        s.add(*pc)
+        vals = []
+        while True:
+            t0 = time.time()
+            r = s.check()
+            self.solver_s += time.time() - t0
+            self.queries += 1
+            if r == z3.unknown:
+                raise Unsupported("solver returned unknown while enumerating the values of " + str(term))
+            if r == z3.unsat:
+                break
+            v = s.model().eval(term, model_completion=True)
+            vals.append(v)
+            if len(vals) > self.VALUE_CAP:
+                raise Unsupported("symbolic offset with more than %d feasible values: %s" % (self.VALUE_CAP, term))
+            s.add(term != v)
+        self.forks_by_value = getattr(self, "forks_by_value", 0) + max(0, len(vals) - 1)
+        return vals
+
+    def pin(self, st, term, value):
+        """replace every occurrence of `term` in registers and scalar slots by its pinned value"""
+        if z3.is_bv_value(term):
+            return
+        for k, v in list(st.regs.items()):
+            if z3.is_expr(v):
+                st.regs[k] = _c(z3.substitute(v, (term, value)))
+            elif isinstance(v, Ptr) and not v.is_null() and z3.is_expr(v.off) and not z3.is_bv_value(v.off):
+                st.regs[k] = Ptr(v.alloc, _c(z3.substitute(v.off, (term, value))))
+        for obj in st.mem.values():
+            if obj.kind == "cell" and obj.val is not None:
+                v = obj.val
+                if z3.is_expr(v):
+                    obj.val = _c(z3.substitute(v, (term, value)))
+                elif isinstance(v, Ptr) and not v.is_null() and not z3.is_bv_value(v.off):
+                    obj.val = Ptr(v.alloc, _c(z3.substitute(v.off, (term, value))))
+
     def operand(self, st, ty, tok):
         tok = tok.strip()
         ty = ty.strip()
@@ -531,8 +577,25 @@ class Interp:
                 raise Unsupported("gep on null")
             if idx.size() < 64:
                 idx = z3.SignExt(64 - idx.size(), idx)
-            R[dst] = Ptr(p.alloc, _c(p.off + idx * (width_of(mm.group(1)) // 8)))
-            return [st]
+            esz = width_of(mm.group(1)) // 8
+            tgt = st.mem.get(p.alloc)
+            off = _c(p.off + idx * esz)
+            if z3.is_bv_value(off) or tgt is None or tgt.kind != "buf" or tgt.bytes is None:
+                R[dst] = Ptr(p.alloc, off)
+                return [st]
+            # index / pointer increment that is a SYMBOLIC term (e.g. derived from the buffer address) into a
+            # concretely sized buffer: enumerate its feasible values under the path condition and fork one path per
+            # value, with the value pinned (substituted everywhere) so that everything downstream is concrete again
+            idx = _c(idx)
+            vals = self.enumerate_values(st.pc, idx)
+            outs = []
+            for n_, v in enumerate(vals):
+                s2 = st if n_ == len(vals) - 1 else st.fork()
+                s2.pc.append(idx == v)
+                self.pin(s2, idx, v)
+                s2.regs[dst] = Ptr(p.alloc, _c(p.off + v * esz))
+                outs.append(s2)
+            return outs
         if op == "bitcast":
             mm = re.match(r"^bitcast (.+?\*) ([^ ]+) to (.+?\*)$", ins)
             if not mm:
